@@ -46,6 +46,7 @@ func checkC03(c *Ctx) {
 	// a response without the id of its request is not a well-formed answer to it (shared with C01)
 	c01IDProvenance(c, false)
 	poolAliasRule(c, "R-frame-owned")
+	poolResetRule(c, "R-pool-reset")
 	c.R.Min("R-id-echo", 40)
 }
 
